@@ -49,7 +49,10 @@ ENV.update({"CARGO_NET_OFFLINE": "true", "GOPROXY": "off", "PIP_NO_INDEX": "1"})
 # `tags`: which monitor verdicts count as a violation of this property.
 # --------------------------------------------------------------------------------------------
 DYNAMIC = {
-    "C01": dict(profiles=["core", "weak", "barrier", "finalize"], mode="od", tags=["C01"]),
+    # "fault": trace panics (object or root, any position) are part of the histories C01 / C08 quantify
+    # over (C11 restates them for the continued history); round 12 delivered a root-trace-fault change
+    # against C01 and C08 that only the C11 check reported
+    "C01": dict(profiles=["core", "weak", "barrier", "finalize", "fault"], mode="od", tags=["C01"]),
     "C02": dict(profiles=["reclaim", "weak", "core"], mode="od", tags=["C02"], release_too=True),
     "C03": dict(profiles=["core", "protocol", "weak"], mode="od", tags=["C03"]),
     "C04": dict(profiles=["core", "weak", "reclaim"], mode="od", tags=["C04"]),
@@ -58,7 +61,7 @@ DYNAMIC = {
     "C05": dict(profiles=["weak", "finalize"], mode="od", tags=["C05", "C01"]),
     "C06": dict(profiles=["barrier", "metrics", "weak"], mode="od", tags=["C06", "C01", "C05"], release_too=True),
     "C07": dict(profiles=["finalize"], mode="od", tags=["C07", "C01"]),
-    "C08": dict(profiles=["protocol", "pacing", "finalize"], mode="sd", tags=["C08"]),
+    "C08": dict(profiles=["protocol", "pacing", "finalize", "fault"], mode="sd", tags=["C08"]),
     "C09": dict(profiles=["pacing", "protocol", "soak"], mode="sd", tags=["C09"], extra=[("decimal", "odt")]),
     "C10": dict(profiles=["metrics", "pacing", "fault"], mode="sd", tags=["C10"], release_too=True, extra=[("decimal", "odt")]),
     "C11": dict(profiles=["fault"], mode="od", tags=["C01", "C02", "C03", "C04", "C05", "C11"]),
